@@ -75,10 +75,11 @@ package invocation
 //@   requires len(delegations) == len(t.proof)
 //@   requires forall i int :: 0 <= i && i < len(delegations) ==> delegations[i] != nil
 //@   requires forall i int, j int :: 0 <= i && i < len(delegations) && 0 <= j && j < len(delegations[i].policy) ==> delegations[i].policy[j] != nil && wfStmt(delegations[i].policy[j])
+//@   requires sizes: len(t.proof) <= 1048576 && (forall i int :: {delegations[i]} 0 <= i && i < len(delegations) ==> len(delegations[i].policy) <= 4294967296)
 //@   ensures [C03] sound: result == nil ==> argsNodeErr(arguments) == nil && argsOK(delegations, argsNode(arguments))
 //@   ensures [C05] complete: argsNodeErr(arguments) == nil && argsOK(delegations, argsNode(arguments)) ==> result == nil
 //@   assigns [C20] nothing
-//@   loop 0: invariant 0 <= k && k <= len(t.proof)
+//@   loop 0: invariant 0 <= k && k <= len(t.proof) && 0 <= count && count <= k * 4294967296
 //@           decreases len(t.proof) - k
 //@   loop 1: invariant 0 <= k && k <= len(t.proof) && fresh(policies)
 //@           invariant forall x int :: 0 <= x && x < len(policies) ==> policies[x] != nil && wfStmt(policies[x])
@@ -103,9 +104,11 @@ package invocation
 //@ pure func allowedSpec(t *Token, l delegation.Loader, a *args.Args) bool =
 //@     loadsOK(t, l) && chainOKL(t, l) && timeOKL(t, l, theNow())
 //@  && argsNodeErr(a) == nil && argsOKL(t, l, argsNode(a))
-//@ // input validity: policies of loadable delegations hold well-formed statements (no nil, finite trees of the five kinds)
+//@ // input validity: policies of loadable delegations hold well-formed statements (no nil, finite trees of the five kinds);
+//@ // sizes that keep the statement count inside int (at most 2^20 proofs with at most 2^32 statements each)
 //@ pure func wfLoaded(t *Token, l delegation.Loader) bool =
-//@     forall i int, j int :: 0 <= i && i < len(t.proof) && loadedErr(l, t.proof[i]) == nil && 0 <= j && j < len(ltok(t, l, i).policy) ==> ltok(t, l, i).policy[j] != nil && wfStmt(ltok(t, l, i).policy[j])
+//@     (forall i int, j int :: 0 <= i && i < len(t.proof) && loadedErr(l, t.proof[i]) == nil && 0 <= j && j < len(ltok(t, l, i).policy) ==> ltok(t, l, i).policy[j] != nil && wfStmt(ltok(t, l, i).policy[j]))
+//@  && len(t.proof) <= 1048576 && (forall i int :: {ltok(t, l, i)} 0 <= i && i < len(t.proof) && loadedErr(l, t.proof[i]) == nil ==> len(ltok(t, l, i).policy) <= 4294967296)
 //@
 //@ func (*Token).executionAllowed
 //@   requires t != nil && loader != nil && arguments != nil && wfLoaded(t, loader)
@@ -265,7 +268,7 @@ package invocation
 //@ func (*Token).toIPLD
 //@   requires canSeali(t, privKey)
 //@   assumes result1 == nil ==> result0 == sealedNodei(t, privKey, old(signings(privKey)))
-//@   assigns signings(privKey)
+//@   assigns [C20] signings(privKey)
 //@   ensures [C08,C18] once: result1 == nil ==> signings(privKey) == old(signings(privKey)) + 1
 //@   ensures nonnil: result1 == nil ==> result0 != nil
 //@   ensures [C07] model: result1 == nil ==> sealedModel(result0) is *tokenPayloadModel && sealedModel(result0).(*tokenPayloadModel) != nil && modelOfi(sealedModel(result0).(*tokenPayloadModel), t)
@@ -277,27 +280,27 @@ package invocation
 //@ func (*Token).Encode
 //@   requires canSeali(t, privKey)
 //@   ensures [C08,C18] bytes: result1 == nil ==> bytes(result0) == encodeWith(encFn, sealedNodei(t, privKey, old(signings(privKey))))
-//@   assigns signings(privKey)
+//@   assigns [C20] signings(privKey)
 //@   ensures [C08,C18] once: result1 == nil ==> signings(privKey) == old(signings(privKey)) + 1
 //@ func (*Token).ToSealed
 //@   requires canSeali(t, privKey)
 //@   ensures [C08] cid: result2 == nil ==> result1 == ucanCid(bytes(result0))
 //@   ensures [C08,C18] bytes: result2 == nil ==> bytes(result0) == encodeWith(dagcbor.Encode, sealedNodei(t, privKey, old(signings(privKey))))
-//@   assigns signings(privKey)
+//@   assigns [C20] signings(privKey)
 //@   ensures [C08,C18] once: result2 == nil ==> signings(privKey) == old(signings(privKey)) + 1
 //@ func (*Token).EncodeWriter
 //@   inline
 //@   requires canSeali(t, privKey) && w != nil
 //@   ensures [C18] bytes: result == nil ==> written(w) == old(written(w)) ++ encodeWith(encFn, sealedNodei(t, privKey, old(signings(privKey)))) && wfailed(w) == old(wfailed(w))
 //@   ensures [C08,C18] once: result == nil ==> signings(privKey) == old(signings(privKey)) + 1
-//@   assigns written(w), wfailed(w), signings(privKey)
+//@   assigns [C20] written(w), wfailed(w), signings(privKey)
 //@ func (*Token).ToSealedWriter
 //@   requires canSeali(t, privKey) && w != nil
 //@   use cid_sum_sha256
 //@   ensures [C18] bytes: result1 == nil ==> written(w) == old(written(w)) ++ encodeWith(dagcbor.Encode, sealedNodei(t, privKey, old(signings(privKey)))) && wfailed(w) == old(wfailed(w))
 //@   ensures [C08,C18] cid: result1 == nil ==> result0 == ucanCid(encodeWith(dagcbor.Encode, sealedNodei(t, privKey, old(signings(privKey)))))
 //@   ensures [C08,C18] once: result1 == nil ==> signings(privKey) == old(signings(privKey)) + 1
-//@   assigns written(w), wfailed(w), signings(privKey)
+//@   assigns [C20] written(w), wfailed(w), signings(privKey)
 //@ func DecodeReader
 //@   inline
 //@   requires r != nil && decFn != nil
